@@ -192,23 +192,29 @@ Definition sel_post (d : dstate) (k : name) (b : bool) (r1 : rstate) : Prop :=
   d_cur (r_d r1) = d_cur d /\
   (b = true -> forall x, In x (static_deps k) -> finished_in (r_tr r1) x).
 
-Lemma handle_error_post r k kind :
+Lemma handle_error_gen_post st r k kind :
+  unfinished st = false -> st <> SNone ->
   RI (r_d r) (r_tr r) -> early (n_pc (node_of (r_d r) k)) = false -> PreX tasks (r_d r) k ->
-  sel_post (r_d r) k false (handle_error r k kind).
+  sel_post (r_d r) k false (handle_error_gen tasks continue_ st r k kind).
 Proof.
-  intros HR He HPx. unfold Runner.handle_error. simpl.
+  intros Hst Hsn HR He HPx. unfold Runner.handle_error_gen. simpl.
   split; [|split; [|split; [|split; [|split]]]]; simpl.
   - apply set_status_RI; auto.
-    + discriminate.
+    + rewrite Hst. discriminate.
     + intros _. simpl. rewrite N.eqb_refl. reflexivity.
   - eapply Pre_after; [exact HPx|intro z; apply set_status_pc| |].
     + intros z Hz. rewrite set_status_st. apply N.eqb_neq in Hz. rewrite Hz. reflexivity.
-    + rewrite set_status_st, N.eqb_refl. discriminate.
-  - rewrite set_status_st, N.eqb_refl. discriminate.
+    + rewrite set_status_st, N.eqb_refl. exact Hsn.
+  - rewrite set_status_st, N.eqb_refl. exact Hsn.
   - intro z. apply set_status_pc.
   - reflexivity.
   - discriminate.
 Qed.
+
+Lemma handle_error_post r k kind :
+  RI (r_d r) (r_tr r) -> early (n_pc (node_of (r_d r) k)) = false -> PreX tasks (r_d r) k ->
+  sel_post (r_d r) k false (handle_error r k kind).
+Proof. apply handle_error_gen_post; [reflexivity|discriminate]. Qed.
 
 Lemma skip_post r k s ev :
   RI (r_d r) (r_tr r) -> early (n_pc (node_of (r_d r) k)) = false -> PreX tasks (r_d r) k ->
@@ -324,6 +330,7 @@ Proof.
   - apply Hlater; [discriminate|exact Hs].
   - apply Hlater; [discriminate|exact Hs].
   - apply Hlater; [discriminate|exact Hs].
+  - apply Hlater; [discriminate|exact Hs].
 Qed.
 
 Lemma select_first_true r k r1 :
@@ -380,7 +387,7 @@ Proof.
       exact HRI.
   - destruct (handle_error_post r k kind_failed HR He HPx) as (A & B & C & _). auto.
   - destruct (handle_error_post r k kind_error HR He HPx) as (A & B & C & _). auto.
-  - destruct (handle_error_post r k kind_dep HR He HPx) as (A & B & C & _). auto.
+  - destruct (handle_error_gen_post SFailureV r k kind_dep eq_refl ltac:(discriminate) HR He HPx) as (A & B & C & _). auto.
 Qed.
 
 Lemma noexec_teardowns l : forallb (fun e => negb (is_exec e)) (map ETeardown l) = true.
